@@ -126,7 +126,15 @@ var bigLiteralRE = regexp.MustCompile(`[0-9]{7,}`)
 
 // templateFeature is the <class> part of template failures: the (at most two, alphabetically first)
 // functions called, else the kind of template.
+// a non-integral literal power inside a template that has anonymous functions: the one operator whose cost per call
+// (some 40 microseconds for the series of Decimal.Pow) is far from the sizes of its operands and result, which is what
+// the work budget of e14c6f8 charges; tens of thousands of them fit into one evaluation's budget (known finding)
+var fractionalPowerRE = regexp.MustCompile(`\^\s*\(*\s*-?[0-9]*\.[0-9]*[1-9]`)
+
 func templateFeature(tpl string) string {
+	if strings.Contains(tpl, "=>") && fractionalPowerRE.MatchString(tpl) {
+		return "tpl:fractional-power-in-anonymous-function"
+	}
 	if strings.Contains(tpl, "d(d(d(") {
 		return "tpl:repeated-application" // a function applied over and over to its own result (doubling, sharing)
 	}
